@@ -294,7 +294,7 @@ theorem send_edges (fl : Flavor) (m : Machine) (u : UEnv) (es : List Ev) (l : LS
   split
   · exact Or.inl (Or.inl rfl)
   · cases fl with
-    | sync => exact Or.inl (drainLoop_status m u _ (pushAll es l.st))
+    | sync => exact Or.inl (drainLoop_status m u _ _ (pushAll es l.st))
     | async =>
       simp only [lsettle]
       split
